@@ -356,6 +356,20 @@ class Catalogue:
                     if self._overlap(doc.frags[a].typecond, doc.frags[b].typecond):
                         self.add("fragment-spreads-must-not-form-cycles", "2-cycle %s <-> %s" % (a, b),
                                  lambda d, a=a, b=b: (d.frags[a].selset.append(Spread(b)), d.frags[b].selset.append(Spread(a))))
+        # an EXISTING fragment (already seen valid by this engine) retargeted to a type disjoint from where it is spread
+        for a in self.pick(fnames):
+            parents = [x.parent for x in walk(s, doc) if x.sel.kind == "spread" and x.sel.name == a and x.parent in s.types]
+            for P in parents[:1]:
+                disjoint = [t.name for t in s.types.values() if t.kind in ("OBJECT", "INTERFACE", "UNION") and s.possible_types(t.name)
+                            and not (set(s.possible_types(t.name)) & set(s.possible_types(P)))]
+                if disjoint:
+                    tgt = rng.choice(disjoint)
+
+                    def fn(d, a=a, tgt=tgt):
+                        d.frags[a].typecond = tgt
+                        d.frags[a].selset = [FieldSel("__typename")]
+                        self._prune_unused(d)
+                    self.add("fragment-spread-is-possible", "existing fragment %s retargeted to %s, spread inside %s" % (a, tgt, P), fn)
         self.add("fragment-must-be-used", "unspread fragment added",
                  lambda d: self._add_unused_frag(d))
         for i, x in self.pick(dsites):
@@ -388,8 +402,10 @@ class Catalogue:
                     self.add("all-variable-uses-defined", "definition of $%s deleted" % op.vardefs[vi][0],
                              lambda d, oi=oi, vi=vi: d.ops[oi].vardefs.pop(vi))
                     n, t, dflt = op.vardefs[vi]
+                    kinds = var_usage_kinds(doc, op, n)
+                    only_nested = " [every usage nested in a list/object literal]" if kinds == {"nested"} else ""
                     for label, nt in self._incompatible(t):
-                        self.add("all-variable-usages-are-allowed", "$%s: %s retyped to %s (%s)" % (n, tstr(t), tstr(nt), label),
+                        self.add("all-variable-usages-are-allowed", "$%s: %s retyped to %s (%s)%s" % (n, tstr(t), tstr(nt), label, only_nested),
                                  lambda d, oi=oi, vi=vi, nt=nt: self._set_vardef(d, oi, vi, typ=nt, default=NODEF))
             self.add("all-variables-used", "op#%d declares an unused variable" % oi,
                      lambda d, oi=oi: (d.ops[oi].vardefs.append(("unusedVar_", N("Int"), NODEF)), self._force_longhand(d, oi)))
@@ -449,6 +465,73 @@ class Catalogue:
         d.frags["ImpossibleFrag_"] = FragDef("ImpossibleFrag_", tgt, [FieldSel("__typename")])
         d.order.append(("frag", "ImpossibleFrag_"))
         container.append(Spread("ImpossibleFrag_"))
+
+    def _prune_unused(self, d):
+        """Drop fragments and variable definitions that a rewrite left unused, so that only the targeted rule is broken."""
+        changed = True
+        while changed:
+            changed = False
+            used = set()
+
+            def rec(selset):
+                for x in selset:
+                    if x.kind == "spread":
+                        used.add(x.name)
+                    elif x.selset:
+                        rec(x.selset)
+            for op in d.ops:
+                rec(op.selset)
+            for n, fr in d.frags.items():
+                pass
+            # fragments reachable from operations
+            reach, todo = set(), list(used)
+            while todo:
+                n = todo.pop()
+                if n in reach or n not in d.frags:
+                    continue
+                reach.add(n)
+                u2 = set()
+
+                def rec2(selset):
+                    for x in selset:
+                        if x.kind == "spread":
+                            u2.add(x.name)
+                        elif x.selset:
+                            rec2(x.selset)
+                rec2(d.frags[n].selset)
+                todo.extend(u2)
+            for n in list(d.frags):
+                if n not in reach:
+                    del d.frags[n]
+                    d.order = [o for o in d.order if o != ("frag", n)]
+                    changed = True
+        # variables: keep only those still used by each operation (directly or through fragments)
+        def vars_in(selset, acc):
+            def val(v):
+                if v[0] == "var":
+                    acc.add(v[1])
+                elif v[0] == "list":
+                    for x in v[1]:
+                        val(x)
+                elif v[0] == "object":
+                    for _, x in v[1]:
+                        val(x)
+            for x in selset:
+                for _, dargs in x.directives:
+                    for _, v in dargs:
+                        val(v)
+                if x.kind == "field":
+                    for _, v in x.args:
+                        val(v)
+                if x.kind == "spread":
+                    if x.name in d.frags:
+                        vars_in(d.frags[x.name].selset, acc)
+                elif x.selset:
+                    vars_in(x.selset, acc)
+        for op in d.ops:
+            acc = set()
+            vars_in(op.selset, acc)
+            op.vardefs = [v for v in op.vardefs if v[0] in acc]
 
     @staticmethod
     def _dup_frag(d, a):
@@ -519,6 +602,40 @@ class Catalogue:
             op.selset.append(FieldSel("__typename", alias="useWrongNested_", directives=[]))
         d.force_longhand = True
         d.wrong_nested = name
+
+
+def var_usage_kinds(doc, op, name):
+    """{'top', 'nested'}: how variable `name` is used by operation `op`, fragments it spreads (transitively) included:
+    as a whole argument value / inside a list or object literal."""
+    kinds, seen = set(), set()
+
+    def val(v, top):
+        if v[0] == "var":
+            if v[1] == name:
+                kinds.add("top" if top else "nested")
+        elif v[0] == "list":
+            for x in v[1]:
+                val(x, False)
+        elif v[0] == "object":
+            for _, x in v[1]:
+                val(x, False)
+
+    def rec(selset):
+        for x in selset:
+            for _, dargs in x.directives:
+                for _, v in dargs:
+                    val(v, True)
+            if x.kind == "field":
+                for _, v in x.args:
+                    val(v, True)
+            if x.kind == "spread":
+                if x.name not in seen and x.name in doc.frags:
+                    seen.add(x.name)
+                    rec(doc.frags[x.name].selset)
+            elif x.selset:
+                rec(x.selset)
+    rec(op.selset)
+    return kinds
 
 
 def smodel_replace_named(t, new):
@@ -603,6 +720,14 @@ async def run_case(ctx, rng, index):
                 ran = len(w.calls) + len(w.tr_calls) + len(w.dir_calls)
                 refused = isinstance(resp, dict) and resp.get("data") is None and bool(resp.get("errors"))
                 if refused and not ran:
+                    # audit: refused by the rule the rewrite targets?  (a rewrite always masked by another rule would leave
+                    # the targeted rule unexercised)
+                    tags = {(e.get("extensions") or {}).get("tag") for e in resp["errors"] if isinstance(e, dict)}
+                    if TAG_OF.get(rule, rule) in tags:
+                        st.inc("refused-by-targeted-rule:" + rule)
+                    else:
+                        st.inc("refused-by-other-rule:" + rule)
+                        st.distinct("other-rule-tags:" + rule, tuple(sorted(str(t) for t in tags)))
                     continue
                 mech = known_mechanism(rule, site)
                 if ran:
@@ -615,11 +740,27 @@ async def run_case(ctx, rng, index):
         b.dispose()
 
 
+TAG_OF = {"fields-exist": "field-selections-on-objects-interfaces-and-unions-types"}
+
+
+def post_check(counters, distinct):
+    out = []
+    rules = {k.split(":", 1)[1] for k in counters if k.startswith("rule:")}
+    for rule in sorted(rules):
+        n = counters.get("rule:" + rule, 0)
+        hit = counters.get("refused-by-targeted-rule:" + rule, 0)
+        if n >= 50 and hit == 0 and rule not in ("executable-definitions",):
+            out.append("no '%s' rewrite (of %d) was refused by the rule it targets" % (rule, n))
+    return out
+
+
 def known_mechanism(rule, site):
     """Narrow, structural attribution to the committed known findings (known_findings.json)."""
     if rule == "fragment-spread-is-possible" and site.startswith("inline ... on "):
         return "impossible-inline-fragment-spread-accepted"
     if rule == "all-variable-usages-are-allowed" and " nested in " in site and site.startswith("variable of type "):
+        return "variable-nested-in-literal-not-type-checked"
+    if rule == "all-variable-usages-are-allowed" and site.endswith("[every usage nested in a list/object literal]"):
         return "variable-nested-in-literal-not-type-checked"
     if rule == "values-of-correct-type" and site.startswith("variable default $"):
         return "ill-typed-variable-default-accepted"
